@@ -7,7 +7,7 @@ from pydoctor import model
 
 DIMS = dict(
     xkind=["class", "func"],
-    dup=["none", "same", "other", "ifelse", "nested"],
+    dup=["none", "same", "other", "ifelse", "nested", "member"],
     nested=[False, True],
     reexp=["none", "pkg_plain", "pkg_renamed", "pkg_star", "sib_plain", "pkg_twice", "pkg_plain_star"],
     origin_all=["absent", "without", "with"],
@@ -24,7 +24,7 @@ def valid(kw):
     return True
 
 
-def gen(xkind, dup, nested, reexp, origin_all, local_def, consumer, cycle, zope=False, fielddoc=False, shadow=False, samename=False, accel=False):
+def gen(xkind, dup, nested, reexp, origin_all, local_def, consumer, cycle, zope=False, fielddoc=False, shadow=False, samename=False, accel=False, via=False, submod=False):
     def defx(tag):
         if xkind == "class":
             doc = f"X {tag}" + ("\n\n    @ivar fld: documented only here\n    " if fielddoc else "")
@@ -49,6 +49,11 @@ def gen(xkind, dup, nested, reexp, origin_all, local_def, consumer, cycle, zope=
         impl += "from typing import TYPE_CHECKING\nif TYPE_CHECKING:\n    from pkg import user\n"
     if zope:
         impl += "from zope.interface import Interface, implementer\nclass IX(Interface):\n    '''IX'''\n    def im(): pass\n"
+        # interfaces created by calling an in-project subclass of InterfaceClass: at module level, and - where they are locals, not
+        # documented objects - inside a function and a method
+        impl += ("from zope.interface.interface import InterfaceClass\nclass VI(InterfaceClass):\n    '''VI'''\nIMod = VI('IMod')\n"
+                 "def make_iface(name):\n    '''make'''\n    IDyn = VI(name)\n    return IDyn\n"
+                 "class Registry:\n    '''Registry'''\n    def register(self, name):\n        IReg = VI(name)\n        return IReg\n")
     if origin_all == "without":
         impl += "__all__ = ['Y']\n"
     elif origin_all == "with":
@@ -70,6 +75,9 @@ def gen(xkind, dup, nested, reexp, origin_all, local_def, consumer, cycle, zope=
             impl += deco + defx(2)
         elif dup == "other":
             impl += defother(2)
+        elif dup == "member" and xkind == "class":
+            # a member defined twice inside the (single, possibly moved) definition: the older one is superseded but stays registered
+            impl += "    def m1(self):\n        '''m again'''\n"
     if accel:
         # the "optional accelerator" idiom: the defining module also binds the name by an import that fails at run time
         impl += "try:\n    from _speedups import X\nexcept ImportError:\n    pass\n"
@@ -88,7 +96,10 @@ def gen(xkind, dup, nested, reexp, origin_all, local_def, consumer, cycle, zope=
         body = f"__all__ = ['{newname}']\n"
         if local_def == "before":
             body += local()
-        if reexp == "pkg_plain":
+        if via and reexp in ("pkg_plain", "pkg_star", "pkg_renamed"):
+            # the package imports the name from an INTERMEDIATE module that itself imported it (a facade): pkg._api has no __all__
+            body += {"pkg_plain": "from pkg._api import X\n", "pkg_star": "from ._api import *\n", "pkg_renamed": "from ._api import X as Z\n"}[reexp]
+        elif reexp == "pkg_plain":
             body += "from pkg._impl import X\n"
         elif reexp == "pkg_twice":
             body += "from pkg._impl import X\nfrom pkg._impl import X\n"
@@ -131,10 +142,16 @@ def gen(xkind, dup, nested, reexp, origin_all, local_def, consumer, cycle, zope=
         else:
             user += "def u(a: B):\n    '''u, see L{B}'''\n"
     sources = {"pkg": (init, True), "pkg._impl": (impl, False)}
+    if via and reexp in ("pkg_plain", "pkg_star", "pkg_renamed"):
+        sources["pkg._api"] = ("from pkg._impl import X\n", False)
     if samename:
         # a sub-module named like the (single) root package, and a member of the root package itself
         sources["pkg.pkg"] = ("def area():\n    '''area, see L{pkg.rootfn}'''\n", False)
         sources["pkg"] = (sources["pkg"][0] + "def rootfn():\n    '''root function, see L{pkg.pkg.area}'''\n", True)
+    if submod:
+        # a sub-module re-exported by a PLAIN module (not a package)
+        sources["pkg.sub"] = ("'''sub'''\nsubvar = 1\n", False)
+        sources["pkg.plain"] = ("'''plain'''\nfrom pkg import sub\n__all__ = ['sub']\n", False)
     if shadow:
         sources["pkg._base"] = ("class X:\n    '''base X'''\n    def bm(self): pass\n" if xkind == "class" else "def X():\n    '''base X'''\n", False)
     if sib is not None:
